@@ -55,6 +55,8 @@ struct Round {
     op: String,
     a: Value,
     silent: bool,
+    /// the operation is invoked on a clone of the handle made after the With* calls
+    clone: bool,
 }
 
 fn jb(b: &[u8]) -> Value {
@@ -116,6 +118,7 @@ fn round_of(v: &Value) -> Round {
         op: v["op"].as_str().unwrap_or("").to_string(),
         a: v["a"].clone(),
         silent: v["srv"].as_str() == Some("silent"),
+        clone: v["clone"].as_bool().unwrap_or(false),
     }
 }
 
@@ -402,7 +405,11 @@ async fn run_round(c: &mut Conn, r: &Round, respond: &mut dyn FnMut(&[u8]) -> Op
         apply_with(&mut c.ldap, w);
     }
     let io = c.io.clone();
-    let ldap = &mut c.ldap;
+    let mut cloned = if r.clone { Some(c.ldap.clone()) } else { None };
+    let ldap = match cloned.as_mut() {
+        Some(l) => l,
+        None => &mut c.ldap,
+    };
     let done = Cell::new(false);
     let nent = Cell::new(0usize);
     let elapsed = Cell::new(0u64);
@@ -742,7 +749,7 @@ fn round_for_kind(op: &str) -> Round {
             std::process::exit(2);
         }
     };
-    Round { ws: vec![], op: op.to_string(), a, silent: false }
+    Round { ws: vec![], op: op.to_string(), a, silent: false, clone: false }
 }
 
 const RET_FIELDS: [&str; 11] = ["rc", "matched", "text", "refs", "ctrls", "exop", "success", "non_error", "equal", "cmp_non_error", "helper_payload_differs"];
@@ -905,7 +912,7 @@ fn replay(path: &str, rep: &mut Report) {
                 if rep.samples.len() < 3 && rep.evaluations % 500 == 7 {
                     rep.sample(json!({"op": op, "args": v["a"], "id": id, "controls": v["ctrls"], "expected_wire": hex(&exp.encs[0])}));
                 }
-                let round = Round { ws, op, a, silent: false };
+                let round = Round { ws, op, a, silent: false, clone: false };
                 replay_history(&rt, id - 1, &[round], &[exp], &[], rep);
             }
             "hist" => {
@@ -1297,7 +1304,7 @@ fn trace(path: &str, count: u64, rep: &mut Report) {
                 }
                 let (op, a) = rand_call(&mut rng, k + 1 == nrounds);
                 let silent = resp_tag(&op).is_some() && rng.gen_bool(0.15);
-                let round = Round { ws, op: op.clone(), a, silent };
+                let round = Round { ws, op: op.clone(), a, silent, clone: false };
                 for w in &round.ws {
                     lines.push(json!({"ev": "With", "w": with_json(w)}));
                 }
